@@ -119,7 +119,12 @@ class ScriptAgent(Agent):
         ps = w.prop_script.get((w.k, self.id))
         if ps is not None:
             for name, value in ps.items():
-                self.set_property_value(name, value)
+                if name == "n" and value != int(value):
+                    # set_property_value would truncate it; set_property stores what it is given (as the scenario
+                    # dictionary and the constructor do): an Integer-declared property that holds 2.5
+                    self.set_property(name, {"type": "Integer", "value": value})
+                else:
+                    self.set_property_value(name, value)
         for s in w.sends.get((w.k, self.id), ()):
             send(self.model, w, s, self.id)
         for op in w.act_ops.get((w.k, self.id), ()):
